@@ -169,12 +169,17 @@ def new_default_m(code: int, vendor: int, preq: int) -> bool:
 def register_rt(tidx: int, vmode: int, mand: int) -> bool:
     """
     pre: 0 <= tidx < len(REG_TYPES) and 0 <= mand <= 2 and 0 <= vmode <= 2
+    pre: P.get("fixed") is None or [tidx, vmode, mand] == P["fixed"]
     post: _
     """
     hx.begin()
     tidx, vmode, mand = hx.concretize_range(tidx, 0, len(REG_TYPES)), hx.concretize_range(vmode, 0, 3), hx.concretize_range(mand, 0, 3)
     T = REG_TYPES[tidx]
     code = P["code"]
+    if P.get("spread"):
+        # every path registers at a (code) of its own, so that no path depends on what an earlier path of the same worker
+        # process left behind in a cache the implementation may keep (a counterexample must reproduce in a fresh process)
+        code = (code + (tidx * 9 + vmode * 3 + mand) * 8) % (1 << 32)
     withvendor = vmode == 1
     # vmode 0: vendor omitted; 1: a vendor id; 2: the explicit 0 that means "no vendor" everywhere else in the API
     vendor = [None, P["vendor"], 0][vmode]
@@ -184,13 +189,29 @@ def register_rt(tidx: int, vmode: int, mand: int) -> bool:
     savedv = dict(D.AVP_VENDOR_DICTIONARY.get(P["vendor"], {})) if P["vendor"] in D.AVP_VENDOR_DICTIONARY else None
     savedz = dict(D.AVP_VENDOR_DICTIONARY.get(0, {})) if 0 in D.AVP_VENDOR_DICTIONARY else None
     try:
-        A.register(code, "X-Registered", T, vendor=vendor, mandatory=m)
-        v = vendor or 0
-        a = Avp.new(code, v)
-        w = ref_avp(code, v, 0, b"")
-        b = Avp.from_bytes(w)
-        other = A.get_avp_dictionary_entry(code, 0 if withvendor else P["vendor"])
-        obs = (type(a).__name__, a.is_mandatory, a.name, type(b).__name__, b.name, other is None or other.get("name") != "X-Registered")
+        # the three inputs are choices, fixed above: the scenario runs natively (CrossHair switches functools.lru_cache off while
+        # tracing, and a memo that survives from an earlier *path* of the same worker process would not reproduce in the replay)
+        with hx.untraced():
+            v = vendor or 0
+            w = ref_avp(code, v, 0, b"")
+            if P.get("seen_before"):
+                # the (code, vendor) pair has been met before its definition exists: decoded as an unknown AVP, refused by Avp.new
+                pre = Avp.from_bytes(w)
+                try:
+                    Avp.new(code, v)
+                except Exception:
+                    pass
+                A.get_avp_dictionary_entry(code, v)
+                if P["seen_before"] == 2:
+                    # ... or an earlier definition of another type is being replaced
+                    A.register(code, "X-Old", REG_TYPES[(tidx + 1) % len(REG_TYPES)], vendor=vendor)
+                    Avp.from_bytes(w)
+                    Avp.new(code, v)
+            A.register(code, "X-Registered", T, vendor=vendor, mandatory=m)
+            a = Avp.new(code, v)
+            b = Avp.from_bytes(w)
+            other = A.get_avp_dictionary_entry(code, 0 if withvendor else P["vendor"])
+            obs = (type(a).__name__, a.is_mandatory, a.name, type(b).__name__, b.name, other is None or other.get("name") != "X-Registered")
     except Exception as e:
         return hx.fail((tidx, vmode, mand), "raised " + type(e).__name__)
     finally:
@@ -1127,10 +1148,15 @@ def specs(tier, seed, carve):
                         bound="every (code, vendor) in [0,2^32)^2 incl. every dictionary key; M request %s; P request in {default, False, True}" % ["default", "False", "True"][mreq]))
     import random
     rnd = random.Random(seed)
-    for k in range(2 if q else 6):
-        code = rnd.choice([rnd.randrange(0xf0000000, 0xffffffff), 1, 263, 0xffffffff])
-        out.append(dict(id="register_rt/%d" % k, fn="register_rt", params={"code": code, "vendor": rnd.choice([99999, 10415, 1, 0xfffffffe])}, timeout=60,
-                        bound="11 type classes x vendor {omitted, given, explicit 0} x mandatory in {None, False, True} at a seeded (code, vendor)"))
+    for k in range(3 if q else 9):
+        code = rnd.randrange(0xf0000000, 0xfffff000) + k * 1024
+        out.append(dict(id="register_rt/%d" % k, fn="register_rt", params={"code": code, "vendor": rnd.choice([99999, 10415, 1, 0xfffffffe]), "spread": True, "seen_before": k % 3}, timeout=120,
+                        bound="11 type classes x vendor {omitted, given, explicit 0} x mandatory in {None, False, True} at seeded (code, vendor) pairs, one pair per combination; the pair %s" % (
+                            ["has never been looked up before", "was decoded / requested before it is defined", "had another definition that was used before it is replaced"][k % 3])))
+    # definitions of the stock dictionary replaced at run time after they have been used (one combination per obligation and code)
+    for j, code in enumerate([1, 263, 8, 296] if q else [1, 263, 8, 296, 264, 283, 25, 55]):
+        out.append(dict(id="register_rt/stock%d" % code, fn="register_rt", params={"code": code, "vendor": 10415, "seen_before": 1, "fixed": [j % len(REG_TYPES), j % 3, j % 3]}, timeout=60,
+                        bound="stock AVP %d used, then redefined at run time (one type / vendor mode / mandatory combination)" % code))
     out.append(dict(id="grp_inplace", fn="grp_inplace", params={"symdict": True}, timeout=120,
                     bound="grouped AVP whose member list is changed in place (append to a fresh / assigned / decoded list, member value changed after assignment); member code, flag octet and both Unsigned32 values symbolic"))
     codes = {"Integer32": 47, "Integer64": 447, "Unsigned32": 5, "Unsigned64": 287, "Enumerated": 6}
